@@ -67,6 +67,8 @@ func runC01(c *Ctx) {
 	c01TailGrowth(c)
 	c.Rule("C01.O11", "E4", "a kernel write that can be repeated within one call (it sits in a loop) is repeated only behind a test of the previous count, or on data advanced by that count: a short count is never followed by a write of later bytes", 2)
 	c01RepeatedWrite(c)
+	c.Rule("C01.O12", "E5", "the write path keeps no state on the poller: functions reachable from Write/Writev/Sendfile run in user goroutines under the connection's mutex only, so a store to a field of nbio.poller (a scratch vector, a shared buffer) there is shared by every connection of that poller without any lock", 1)
+	c01NoPollerState(c)
 	c.Rule("C01.O9", "E3", "a failed syscall.Dup before queuing a file range never reaches a success return", 2)
 
 	core := c.Core()
@@ -1414,4 +1416,37 @@ func c01RepeatedWrite(c *Ctx) {
 	if n == 0 {
 		c.OK("C01.O11", "no kernel write on a connection descriptor sits in a loop", "", "nothing to repeat")
 	}
+}
+
+// c01NoPollerState: O12.
+func c01NoPollerState(c *Ctx) {
+	kernel, enqueue := c.writeSinks()
+	n := 0
+	bad := ""
+	for _, f := range c.nbioFuncs() {
+		name := c.P.FuncName(ir.Outermost(f))
+		if !(kernel[ir.Outermost(f)] || enqueue[ir.Outermost(f)] || strings.HasPrefix(name, "nbio.writev")) {
+			continue
+		}
+		if strings.HasPrefix(name, "(*nbio.poller).") || strings.HasPrefix(name, "nbio.newPoller") || strings.HasPrefix(name, "(*nbio.Engine).") {
+			continue
+		}
+		n++
+		for _, b := range f.Blocks {
+			for _, in := range b.Instrs {
+				st, ok := in.(*ssa.Store)
+				if !ok {
+					continue
+				}
+				fa, ok := st.Addr.(*ssa.FieldAddr)
+				if !ok {
+					continue
+				}
+				if k := c.P.FieldKey(fa); strings.HasPrefix(k, "nbio.poller.") {
+					bad = name + " stores to " + k + " at " + c.Pos(st) + ": the write path runs in user goroutines holding only their own connection's mutex, so two connections of the same poller overwrite each other's state there (one connection sends another's bytes)"
+				}
+			}
+		}
+	}
+	c.Cond(bad == "", "C01.O12", "write path: no store to poller fields", "", fmt.Sprintf("%d write-path function(s) examined", n), bad)
 }
